@@ -68,6 +68,10 @@ F25519 = {
                                   text='out = the 256-bit big-endian integer in[0..32) as field value (NOT reduced; limbs tight, out[9] < 2^26)'),
     'convert_behex_to_le25p5': dict(params=('out', 'in'), op='from_be_hex', ret=0,
                                     text='out = the integer written as big-endian hex string in; returns 0 for an even-length hex string of <= 64 digits'),
+    'convert_le25p5_to_le8': dict(params=('out', 'in'), op='to_canonical_bytes',
+                                  text='out[0..32) = the little-endian encoding of the canonical representative of in mod 2^255-19 (the function '
+                                       'reduces completely: carry pass, repacking to 4x64 bits, reduce_25519_le64), so two such encodings are equal '
+                                       'byte strings iff the field values are equal'),
     'reduce_25519_le25p5': dict(params=('x',), op='reduce_canonical',
                                 text='value of x unchanged.  ASSUMED ADDITIONALLY (and known to be FALSE on the pinned tree, DESIGN.md section 4 D7): the '
                                      'limbs become the canonical representative, so that memcmp of two reduced elements decides equality in F_p.  The '
